@@ -263,7 +263,7 @@ fn first_mismatch(g: &[G], r: &Run) -> Option<(usize, String)> {
 
 fn truth_line(g: &[G]) -> String { g.iter().enumerate().map(|(i, g)| format!("v{i}={}", show_g(g))).collect::<Vec<_>>().join(", ") }
 
-const BUDGET: Duration = Duration::from_secs(5);
+const BUDGET: Duration = Duration::from_secs(20);
 
 #[test]
 fn c15_compatible_evidence_joins_to_the_truth() {
